@@ -10,6 +10,10 @@ CeilDiv(a, b) == (a + b - 1) \div b
 Min2(a, b) == IF a < b THEN a ELSE b
 Max2(a, b) == IF a > b THEN a ELSE b
 Abs(a) == IF a < 0 THEN -a ELSE a
+\* saturating product of naturals (TLC integers are 32-bit and raise an error on overflow; file-controlled
+\* dimensions and counts can multiply beyond that)
+MaxInt == 2147483647
+SatMul(a, b) == IF a = 0 \/ b = 0 THEN 0 ELSE IF a > MaxInt \div b THEN MaxInt ELSE a * b
 
 \* options are encoded as <<>> (none) or <<v>> (some): TLC's JSON reader rejects null
 None == <<>>
